@@ -15,7 +15,8 @@ Section FixedLib.
   Hypothesis Hundo : f_undo (c_filter cfg) = true.
   Hypothesis Hincl : c_incl cfg = false.
 
-  Hypothesis U_id : forall b, In b U -> bid b <> 0 /\ bparent b <> 0 /\ bid b <> bparent b.
+  (* ids are non-empty and no block is its own parent; the parent id MAY be empty (a root) *)
+  Hypothesis U_id : forall b, In b U -> bid b <> 0 /\ bid b <> bparent b.
   Hypothesis U_uniq : forall x y, In x U -> In y U -> bid x = bid y -> x = y.
   Hypothesis U_up : forall x y, In x U -> In y U -> bparent x = bid y -> bnum y < bnum x.
   Hypothesis L_id : ri r0 <> 0.
@@ -107,6 +108,15 @@ Section FixedLib.
     forall e, In e l -> esent e = true ->
       bparent (eb e) = ri r0 \/ exists p, find (bparent (eb e)) l = Some p /\ esent p = true.
 
+  (* a sent entry rests on the LIB or on a stored entry: its parent id is not empty; so a stored root is unsent *)
+  Lemma lc_root_unsent l : wf_store l -> lc l -> forall e, In e l -> bparent (eb e) = 0 -> esent e = false.
+  Proof.
+    intros Hwf Hlc e He Hp. destruct (esent e) eqn:Es; [|reflexivity]. exfalso.
+    destruct (Hlc e He Es) as [H|(p & Hf & _)].
+    - rewrite Hp in H. apply L_id. symmetry. exact H.
+    - rewrite Hp, (find_zero_wf _ Hwf) in Hf. discriminate.
+  Qed.
+
   Record Inv (s : fstate) (S : cstack) : Prop := mkInv {
     i_nodup : NoDup (keys (store (db s)));
     i_inU : in_U (store (db s));
@@ -143,6 +153,14 @@ Section FixedLib.
     apply U_uniq; [apply HU; exact Hin | exact Hb | exact Hk].
   Qed.
 
+  (* the stored entry of a root is unsent *)
+  Lemma stored_root_unsent l b e : in_U l -> In b U -> find (bid b) l = Some e -> wf_store l -> lc l ->
+    bparent b = 0 -> esent e = false.
+  Proof.
+    intros HU Hb Hf Hwf Hlc Hp. apply (lc_root_unsent l Hwf Hlc e (proj1 (find_some _ _ _ Hf))).
+    rewrite (stored_is_self _ _ _ HU Hb Hf). exact Hp.
+  Qed.
+
   (* ---------------------------------------------------------------- ProcessBlock, unfolded for this configuration *)
 
   Definition new_db (d : forkdb) (b : block) : forkdb :=
@@ -151,22 +169,38 @@ Section FixedLib.
   Lemma add_link_new d b : In b U -> find (bid b) (store d) = None ->
     add_link d b = (new_db d b, false).
   Proof.
-    intros Hb Hf. destruct (U_id b Hb) as (H1 & H2 & H3).
+    intros Hb Hf. destruct (U_id b Hb) as (H1 & H3).
     unfold add_link. destruct (N.eqb_spec (bid b) (bparent b)); [contradiction|].
     destruct (N.eqb_spec (bid b) 0); [contradiction|]. cbn [orb].
     unfold exists_link, link_of. rewrite Hf. cbn.
     unfold new_db. f_equal. f_equal. apply put_keys_new. apply find_none. exact Hf.
   Qed.
 
+  (* a stored block with a non-empty parent id is recognised ... *)
   Lemma add_link_old d b e : in_U (store d) -> In b U -> find (bid b) (store d) = Some e ->
-    add_link d b = (d, true).
+    bparent b <> 0 -> add_link d b = (d, true).
   Proof.
-    intros HU Hb Hf. destruct (U_id b Hb) as (H1 & H2 & H3).
+    intros HU Hb Hf H2. destruct (U_id b Hb) as (H1 & H3).
     unfold add_link. destruct (N.eqb_spec (bid b) (bparent b)); [contradiction|].
     destruct (N.eqb_spec (bid b) 0); [contradiction|]. cbn [orb].
     unfold exists_link, link_of. rewrite Hf.
     rewrite (stored_is_self _ _ _ HU Hb Hf).
     destruct (N.eqb_spec (bparent b) 0); [contradiction|]. reflexivity.
+  Qed.
+
+  (* ... a stored root is not (links[id] = ""): if its entry is unsent it is stored again unchanged and
+     AddLink answers "did not exist" *)
+  Lemma add_link_root d b e : NoDup (keys (store d)) -> in_U (store d) -> In b U ->
+    find (bid b) (store d) = Some e -> bparent b = 0 -> esent e = false ->
+    add_link d b = (d, false).
+  Proof.
+    intros Hnd HU Hb Hf H2 Hs. destruct (U_id b Hb) as (H1 & H3).
+    unfold add_link. destruct (N.eqb_spec (bid b) (bparent b)); [contradiction|].
+    destruct (N.eqb_spec (bid b) 0); [contradiction|]. cbn [orb].
+    unfold exists_link, link_of. rewrite Hf.
+    pose proof (stored_is_self _ _ _ HU Hb Hf) as Eb. rewrite Eb, H2. cbn [N.eqb negb].
+    assert (Ee : mkEntry b false = e) by (destruct e as [eb0 es0]; cbn in Eb, Hs; subst; reflexivity).
+    rewrite Ee, (put_same _ e Hnd (proj1 (find_some _ _ _ Hf))). destruct d; reflexivity.
   Qed.
 
   Definition sw_of (s : fstate) (b : block) : scss_result :=
@@ -192,7 +226,7 @@ Section FixedLib.
           else process_tail cfg s1 b undos redos junc longest None
       end.
   Proof.
-    intros Hl Hb Hf Hd Hsw. destruct (U_id b Hb) as (H1 & H2 & H3).
+    intros Hl Hb Hf Hd Hsw. destruct (U_id b Hb) as (H1 & H3).
     unfold fk_step. destruct (N.eqb_spec (bid b) (bparent b)); [contradiction|].
     unfold dropped in Hd. rewrite Hd, Hincl. cbn [andb].
     unfold sw_of in Hsw. rewrite Hsw.
@@ -203,11 +237,13 @@ Section FixedLib.
     destruct (reversible_segment (new_db (db s) b) first (bref b)) as [[longest reach]|]; reflexivity.
   Qed.
 
+  (* a block that is already stored (a LIB is set, exclusive mode): nothing happens; a stored root is
+     stored again unchanged and its longest chain is empty *)
   Lemma fk_step_old s b e : in_U (store (db s)) -> In b U -> find (bid b) (store (db s)) = Some e ->
-    wf_store (store (db s)) ->
+    wf_store (store (db s)) -> (bparent b = 0 -> esent e = false) -> ri (libref (db s)) <> 0 ->
     fk_step cfg s b = (s, [], ROk).
   Proof.
-    intros HU Hb Hf Hwf. destruct (U_id b Hb) as (H1 & H2 & H3).
+    intros HU Hb Hf Hwf Hroot Hl. destruct (U_id b Hb) as (H1 & H3).
     unfold fk_step. destruct (N.eqb_spec (bid b) (bparent b)); [contradiction|].
     destruct ((bnum b <? rn (libref (db s))) && match last_sent s with Some _ => true | None => false end); [reflexivity|].
     rewrite Hincl. cbn [andb].
@@ -217,7 +253,14 @@ Section FixedLib.
     { destruct (f_undo (c_filter cfg) && triggers cfg s b); [|eauto].
       destruct (last_sent s) as [ls|]; [apply scss_total; exact Hwf | eauto]. }
     destruct Hsw as (u & r & j & ->).
-    rewrite (add_link_old _ _ _ HU Hb Hf). reflexivity.
+    destruct (N.eq_dec (bparent b) 0) as [E0|E0].
+    - rewrite (add_link_root _ _ _ (ws_nodup _ Hwf) HU Hb Hf E0 (Hroot E0)).
+      rewrite (has_lib_nz _ Hl).
+      assert (Hs : with_db s (db s) = s) by (destruct s; reflexivity). rewrite Hs.
+      pose proof (stored_is_self _ _ _ HU Hb Hf) as Eb.
+      destruct (rs_root (db s) first (bid b) (bnum b) e Hwf Hl Hf) as [rr Hrs]; [rewrite Eb; exact E0|].
+      unfold reversible_segment. cbn [bref ri rn]. rewrite Hrs. rewrite orb_true_r. reflexivity.
+    - rewrite (add_link_old _ _ _ HU Hb Hf E0). reflexivity.
   Qed.
 
   (* ---------------------------------------------------------------- the tail of ProcessBlock *)
@@ -598,7 +641,7 @@ Section FixedLib.
 
   Lemma fk_step_dropped s b : In b U -> dropped s b = true -> fk_step cfg s b = (s, [], ROk).
   Proof.
-    intros Hb Hd. destruct (U_id b Hb) as (H1 & H2 & H3).
+    intros Hb Hd. destruct (U_id b Hb) as (H1 & H3).
     unfold fk_step. destruct (N.eqb_spec (bid b) (bparent b)); [contradiction|].
     unfold dropped in Hd. rewrite Hd. reflexivity.
   Qed.
@@ -638,7 +681,9 @@ Section FixedLib.
     pose proof HI as [Hnd HU Hl Hlc Hh].
     pose proof (wf_of_U _ Hnd HU) as Hwf.
     destruct (find (bid b) (store (db s))) as [e|] eqn:Hf.
-    { exists s, [], S. rewrite (fk_step_old s b e HU Hb Hf Hwf).
+    { exists s, [], S.
+      assert (Hlz : ri (libref (db s)) <> 0) by (destruct Hl as [-> _]; exact L_id).
+      rewrite (fk_step_old s b e HU Hb Hf Hwf (stored_root_unsent _ b e HU Hb Hf Hwf Hlc) Hlz).
       assert (In (bid b) (keys (store (db s)))).
       { destruct (in_dec N.eq_dec (bid b) (keys (store (db s)))) as [i|n]; [exact i|]. apply find_none in n. congruence. }
       split; [reflexivity|]. split; [reflexivity|]. split; [assumption|]. apply extras_same; auto. }
@@ -697,7 +742,7 @@ Section FixedLib.
         * exact HsH.
         * rewrite app_nil_r. exact HS.
         * exists s3, evs, (rev (map eb (pP ++ [en]))). split; [exact Hrun|]. split; [exact Happ|]. split; [exact HI3|]. apply Hfin3; assumption.
-      + destruct (scss_link (db s) (ri r0) (bid hd) (bparent b) pH pP Hwf Hneq HcH HcP0) as (C & R & Uh & j & HP & HH & Hsc).
+      + destruct (scss_link (db s) (ri r0) (bid hd) (bparent b) pH pP Hwf L_id Hneq HcH HcP0) as (C & R & Uh & j & HP & HH & Hsc).
         { intros f t e0 Hu He0. exact (tail_disjoint (db s) pP (bparent b) Hl HU Hnd HcP0 f t e0 Hu He0). }
         rewrite Hsc in Hsw. injection Hsw as <- <- <-.
         destruct (trigger_finish s1 S b pP C R Uh j HI1 Hb Hc HP) as (s3 & evs & Hrun & Happ & HI3 & Hk3).
